@@ -35,7 +35,11 @@ out = ["## 15. Changes that keep the property true: no alarm\n",
        "heuristic the statement does not pin), with a written argument (`harmless/<id>/WHY.txt`). `SEEDED_KIND=harmless tools/seeded.py` "
        "runs the registered quick command against each in isolation; the expected outcome is exit 0 (`QUIET`). Changes touching the decoder "
        "or the shared wiring were also run against the checks of neighbouring properties.\n",
-       f"Result: {len(rows)} changes, {n_runs} check runs, {n_alarm} alarm(s). Every alarm is justified (see the notes in the table): the "
+       f"Result: {len(rows)} changes, {n_runs} check runs (latest verdict per change and check), {n_alarm} alarm(s). After the round-7 "
+       "strengthenings (section 11.6) the 27 changes written for C06, C07, C08, C10, C11, C12 and C16 were run again against the "
+       "strengthened checks (moving reference, unit-code fills, fresh-thread re-decode, buffer-form pairs, streams through one `Filters` "
+       "value, zero address and day-long silences, hosts with capitals): all quiet. "
+       f"Every alarm is justified (see the notes in the table): the "
        "change was not harmless for the property whose check fired. Examples of behaviour that changed without an alarm: Beast frames handed on as soon as complete "
        "(look-ahead 23 -> 2 bytes, nothing left pending), dedup ties broken by arrival rank instead of frame bytes, undecodable "
        "receptions dropped at arrival, table navigation saturating instead of wrapping, the 50 km trajectory gate scaled with elapsed "
